@@ -281,3 +281,26 @@ def J5(inp, n, pos):
         if exc2 is None:
             cl['reopened_same_as_memory_journal'] = _journal_equals(j2, ref)
     return Res(cl, nontrivial=(n - pos) % 10 == 0 and pos < n, obs=lambda: dict(n=n, pos=pos, removed=n - pos, exc=show(exc)))
+
+
+@obligation('J6', props=('C08', 'C06'), quick=[dict()], stubs=_STUBS, bounds='creation of a journal file on an empty disk followed by one append of 0..40 bytes; kill before/after every primitive write')
+def J6(inp):
+    """kill while the journal file is being created: whatever prefix of the primitive writes reached the disk, the next start
+    opens the journal without an exception and finds nothing that was not stored (the file is empty, holds the header, or holds
+    the header and the first record)."""
+    fs = disk.install_journal(False)
+    fs.mark()
+    j, exc = guard(J.FileJournal, 'jf')
+    rec = disk.payload(fs, 1, inp.int('size', 0, 40))
+    if exc is None:
+        _, exc = guard(j.add, rec, 1, 0)
+    nprim = len(fs.log)
+    cut = inp.choice('cut', nprim + 1)
+    j2, exc2 = _reopen_at(fs, cut)
+    cl = {'no_exception': exc is None}
+    cl['reopen_no_exception'] = exc2 is None
+    if exc2 is None:
+        cl['reopened_holds_nothing_or_the_record'] = len(j2) == 0 or (len(j2) == 1 and _entry_same(j2[0], (rec, 1, 0)))
+        if cut == nprim:
+            cl['completed_append_visible'] = len(j2) == 1
+    return Res(cl, nontrivial=True, obs=lambda: dict(cut=cut, prims=[p_[0] for p_ in fs.log], exc=show(exc), exc2=show(exc2)))
